@@ -245,6 +245,41 @@ def rowOfView {σ : Type} (env : Env σ) (v : MethodView σ) : Row :=
   { name := v.name, methodType := kindValue v.kind, hasReturn := v.hasReturn, params := env.ser v.params,
     result := env.ser v.result, hasHeader := v.hasHeader, header := v.header.map env.ser, isExchange := v.isExchange }
 
+/-! ### `_ArrowSchemaDescriptor.__get__` (vgi_rpc/utils.py): where `header_type.ARROW_SCHEMA` and nested record types come from
+
+The schema of a record class is generated lazily and cached on the class.  A class table is a list of optional parent
+indices; a cache maps a class to *the class whose generated schema is stored in its `__dict__`*; a touch returns the
+class whose generated schema the caller receives (the definition's own schema iff that is the touched class). -/
+
+abbrev Classes := List (Option Nat)
+abbrev SchemaCache := List (Nat × Nat)
+
+def parentOf (cs : Classes) (c : Nat) : Option Nat := (cs[c]?).join
+
+/-- `c.__mro__` restricted to record classes (single inheritance), by fuel -/
+def mroOf (cs : Classes) : Nat → Nat → List Nat
+  | 0, c => [c]
+  | f + 1, c => c :: (match parentOf cs c with
+    | some p => mroOf cs f p
+    | none => [])
+
+/-- the cache-hit test of `__get__`, in the extracted lookup mode -/
+def cacheLookup (mode : CacheLookup) (cs : Classes) (cache : SchemaCache) (c : Nat) : Option Nat :=
+  match mode with
+  | .ownDict => dictGet cache c
+  | .mro => (mroOf cs cs.length c).findSome? (fun k => dictGet cache k)
+
+/-- `cls.ARROW_SCHEMA`: (class whose generated schema is returned, new cache) -/
+def touchSchema (mode : CacheLookup) (cs : Classes) (cache : SchemaCache) (c : Nat) : Nat × SchemaCache :=
+  match cacheLookup mode cs cache c with
+  | some k => (k, cache)
+  | none => (c, dictSet cache c c)
+
+/-- a sequence of first/later accesses in one process -/
+def touchAll (mode : CacheLookup) (cs : Classes) : SchemaCache → List Nat → List Nat
+  | _, [] => []
+  | cache, c :: rest => (touchSchema mode cs cache c).1 :: touchAll mode cs (touchSchema mode cs cache c).2 rest
+
 /-! ### `__describe__` under a protocol-version mismatch: the C09 gate at the three extracted call sites -/
 
 def describeGate (site : Gen.Semver.GateSite) (srv : Option (Nat × Nat × Nat)) (md : C09.ClientMd) : C09.GateResult :=
